@@ -188,6 +188,7 @@ func enumPaths(rec *ev.Rec, known *kf.File, maxDepth, shard, shards int) (int, b
 		values = append(values, exoticZoo())
 	}
 	n := 0
+	avoid := avoider(rec, known)
 	emit := func(z VD, steps []Step) bool {
 		bs := binds
 		if len(steps) > 2 {
@@ -233,7 +234,7 @@ func enumPaths(rec *ev.Rec, known *kf.File, maxDepth, shard, shards int) (int, b
 						return false
 					}
 				}
-				for _, k := range invalidSteps(cur) {
+				for _, k := range invalidSteps(cur, avoid) {
 					st := Step{K: k, Q: pickQ(mode, d, cur, k)}
 					if _, out, _ := index(cur, st); out == reach {
 						continue // e.g. "0"/"7" happens to be a key of this map
@@ -268,6 +269,7 @@ var exoticKeys = []string{"a.b", "", " s", "q[0", "k."}
 
 type genCtx struct {
 	rec      *ev.Rec
+	avoid    func(string) bool
 	exoticOK bool
 	plain    bool // never draw exotic keys (family 1 does not need them)
 }
@@ -459,7 +461,7 @@ func genQ(t *rapid.T, cur any, k string) int {
 
 // genSteps walks v with ordinary Go indexing and builds the path along the way; with some
 // probability a step that must report absence is taken instead.
-func genSteps(t *rapid.T, v any, maxDepth int) []Step {
+func genSteps(t *rapid.T, v any, maxDepth int, avoid func(string) bool) []Step {
 	n := rapid.IntRange(0, maxDepth).Draw(t, "depth")
 	cur, alive := v, true
 	steps := []Step{}
@@ -471,10 +473,18 @@ func genSteps(t *rapid.T, v any, maxDepth int) []Step {
 			if i == n-1 {
 				pInvalid = 4
 			}
-			if len(valid) > 0 && rapid.IntRange(0, 9).Draw(t, "invalid") >= pInvalid {
+			wantValid := rapid.IntRange(0, 9).Draw(t, "invalid") >= pInvalid
+			var invalid []string
+			if !wantValid || len(valid) == 0 {
+				invalid = invalidSteps(cur, avoid)
+			}
+			switch {
+			case len(invalid) > 0:
+				k = rapid.SampledFrom(invalid).Draw(t, "bad")
+			case len(valid) > 0:
 				k = rapid.SampledFrom(valid).Draw(t, "step")
-			} else {
-				k = rapid.SampledFrom(invalidSteps(cur)).Draw(t, "bad")
+			default:
+				return steps // nothing to take here (region of an open finding)
 			}
 		} else {
 			k = rapid.SampledFrom([]string{"k", "0", "Name"}).Draw(t, "junk")
@@ -495,28 +505,35 @@ func genSteps(t *rapid.T, v any, maxDepth int) []Step {
 }
 
 func genPathCase(t *rapid.T, rec *ev.Rec, known *kf.File) PathCase {
-	g := genCtx{rec: rec, exoticOK: !known.Open(kfQuoted)}
+	g := genCtx{rec: rec, avoid: avoider(rec, known), exoticOK: !known.Open(kfQuoted)}
 	val := g.val(t, rapid.IntRange(1, 4).Draw(t, "vdepth"))
 	return PathCase{
 		Val:   val,
 		Bind:  rapid.SampledFrom(binds).Draw(t, "bind"),
-		Steps: genSteps(t, val.Go(), 4),
+		Steps: genSteps(t, val.Go(), 4, g.avoid),
 	}
 }
 
 // genSeq draws a history of up to 30 ops; a model is run alongside only to aim reads at names
 // that are bound and to know the scope depth.
 func genSeq(t *rapid.T, rec *ev.Rec, known *kf.File) SeqCase {
-	g := genCtx{rec: rec, plain: true}
+	g := genCtx{rec: rec, avoid: avoider(rec, known), plain: true}
 	value := func() VD {
-		switch rapid.IntRange(0, 9).Draw(t, "vk") {
+		switch rapid.IntRange(0, 11).Draw(t, "vk") {
 		case 0:
 			return vNil()
 		case 1, 2:
 			return vList("slice", genScalar(t), genScalar(t), genScalar(t))
 		case 3:
-			return vList("arr3", vInt(1), vInt(2), vInt(3))
-		case 4, 5:
+			if rapid.Bool().Draw(t, "arr") {
+				return vList("arr3", vInt(1), vInt(2), vInt(3))
+			}
+			return vList("arr2", genScalar(t), genScalar(t))
+		case 4:
+			return vMap("map", map[string]VD{"a": genScalar(t), "b": genScalar(t), "k": vList("ints", vInt(1), vInt(2))})
+		case 5:
+			return vMap("mapss", map[string]VD{"a": vStr("sa"), "k": vStr("sk")})
+		case 6, 7:
 			return g.val(t, 2)
 		default:
 			return genScalar(t)
@@ -587,9 +604,12 @@ func genSeq(t *rapid.T, rec *ev.Rec, known *kf.File) SeqCase {
 				kind = "get"
 			}
 			name := rapid.SampledFrom(bigUniverse).Draw(t, "rn")
+			if bound := sortedKeys(models[cur].flatten()); len(bound) > 0 && rapid.IntRange(0, 3).Draw(t, "bound") > 0 {
+				name = rapid.SampledFrom(bound).Draw(t, "rb") // mostly read names that are bound
+			}
 			op = Op{K: kind, N: name}
 			if base, _, ok := models[cur].lookup(name); ok {
-				op.P = genSteps(t, base, 2)
+				op.P = genSteps(t, base, 2, g.avoid)
 			} else if rapid.Bool().Draw(t, "junkpath") {
 				op.P = []Step{{K: "k"}}
 			}
